@@ -60,7 +60,9 @@ VARIABLES now,       \* virtual clock [d, ms]
           parked,    \* index |-> the per-logger variables of the other loggers (and the day they were parked on)
           \* ---- per-logger variables (of the active logger) ----
           att,       \* the output handle leads to a file that is (still) in the directory
-          conf,      \* [level, iv, keep, rot, id, oname]
+          conf,      \* [level, iv, keep, rot, so, id, oname]; so = the "also print to standard output" option: it
+                     \* is part of the settings and of no consequence for the files -- an accepted line is
+                     \* appended to the output file under every value of it, from every entry point
           files,     \* relative path (bytes) |-> content (bytes), regular files under logs/
           dirs,      \* set of relative paths of directories under logs/
           links,     \* relative path of a symbolic link under logs/ |-> [to, file, data]: where it really
@@ -232,7 +234,7 @@ IsBanner(b, oname, t) == /\ Len(b) > 42
 
 
 (* --------------------------------- Init --------------------------------- *)
-Conf0 == [level |-> 2, iv |-> 10, keep |-> 7, rot |-> TRUE, id |-> <<>>, oname |-> <<>>]
+Conf0 == [level |-> 2, iv |-> 10, keep |-> 7, rot |-> TRUE, so |-> FALSE, id |-> <<>>, oname |-> <<>>]
 T00   == [d |-> 0, ms |-> 0]
 Init == /\ now = T00 /\ logsSt = "none" /\ self = 1 /\ parked = EmptyFn /\ att = TRUE
         /\ conf = Conf0
@@ -338,11 +340,12 @@ ExternalUnblock == /\ phase # "gate" /\ logsSt = "file" /\ logsSt' = "none"
                    /\ UNCHANGED <<now, self, parked, files, dirs, links, lgv, histv>>
 
 (* ------------------------------ the logger ------------------------------ *)
-\* construction: defaults (rotation on, 7 days, 10 s), the given id / name / level;
+\* construction: defaults (rotation on, 7 days, 10 s), the given id / name / level / standard-output option
+\* (the caller of the action passes the documented defaults for options that were not given);
 \* makes logs/ if it is missing, opens today's file (appending if it exists) and writes the banner
-Open(id, oname, level, banner) ==
-  /\ phase = "new" /\ logsSt # "file" /\ logsSt' = "dir"
-  /\ LET c == [level |-> level, iv |-> 10, keep |-> 7, rot |-> TRUE, id |-> id, oname |-> oname]
+Open(id, oname, level, so, banner) ==
+  /\ phase = "new" /\ logsSt # "file" /\ logsSt' = "dir" /\ so \in BOOLEAN
+  /\ LET c == [level |-> level, iv |-> 10, keep |-> 7, rot |-> TRUE, so |-> so, id |-> id, oname |-> oname]
          n == NameOf(c, TRUE, now.d)
      IN  /\ IsBanner(banner, oname, now)
          /\ n \notin dirs /\ n \notin DOMAIN links
@@ -351,11 +354,11 @@ Open(id, oname, level, banner) ==
   /\ lastDay' = now.d /\ lastRot' = TRUE /\ retainAt' = now /\ phase' = "run" /\ fresh' = TRUE /\ att' = TRUE
   /\ UNCHANGED <<now, self, parked, dirs, links, recent, bleft, histv>>
 
-\* settings change (level / interval / keep-days / rotation); takes effect at once,
+\* settings change (level / interval / keep-days / rotation / standard-output option); takes effect at once,
 \* the output file follows at the next cycle
-Configure(level, iv, keep, rot) ==
-  /\ phase = "run"
-  /\ conf' = [conf EXCEPT !.level = level, !.iv = iv, !.keep = keep, !.rot = rot]
+Configure(level, iv, keep, rot, so) ==
+  /\ phase = "run" /\ so \in BOOLEAN
+  /\ conf' = [conf EXCEPT !.level = level, !.iv = iv, !.keep = keep, !.rot = rot, !.so = so]
   /\ fresh' = (fresh /\ rot = conf.rot)
   /\ UNCHANGED <<now, logsSt, self, parked, att, files, dirs, links, cur, lastDay, lastRot, retainAt, recent, phase, bleft, histv>>
 
